@@ -411,7 +411,12 @@ impl<'a> GeneratorState<'a> {
                                 acc_in_use = false;
                                 self.acc_in_use = false;
                             }
-                            _ => unreachable!(),
+                            ExprType::Nothing => {
+                                return Err(self
+                                    .compiler_state
+                                    .syntax_error("Can't assign void to variable", pos))
+                            }
+                            _ => return Err(self.compiler_state.syntax_error("Syntax error", pos)),
                         };
                         match left {
                             ExprType::Absolute(a, b, c) => {
